@@ -14,8 +14,12 @@
    ("Transfer-Encoding: chunked", any list of non-empty chunks "<hex n>\r\n<n bytes>\r\n" and the last chunk
    "0\r\n\r\n": one body event per chunk with exactly its bytes, completion exactly behind the final CRLF), and the
    lifting to pipelined sequences mixing the three kinds. The decimal and hexadecimal renderings are proved to be
-   read back by the parser's integer reader (C07Dec.parse_int_dec / parse_int_hex). MISSING: chunk extensions,
-   trailers, upper-case hex digits, the response side. Those are decided on every run by the differential harness against net/http
+   read back by the parser's integer reader (C07Dec.parse_int_dec / parse_int_hex). The same for RESPONSES on the
+   client side (c07_roundtrip_resp_partial, c07_pipelined_resp_partial): status line "<proto> <code> <reason>",
+   any code < 2^62 rendered in decimal, reason phrase of one or more words (the parser keeps the first word - that
+   is what `meaning_resp` says, and the harness compares the code only), the same header lines and the same three
+   framings; successive responses on one connection start exactly behind one another. MISSING: chunk extensions,
+   trailers, upper-case hex digits, HTAB as optional whitespace. Those are decided on every run by the differential harness against net/http
    (cmd/httpref), not by a theorem. That `meaning` coincides with what net/http extracts is tested, not proved. *)
 Require Import HttpParser C06Proofs C07Reqs C07Dec C07Body C07Chunk C07Msg.
 From Coq Require Import List NArith ZArith Bool Lia.
@@ -142,9 +146,56 @@ Proof.
   - cbn [mbody]. repeat constructor; try discriminate; vm_compute; reflexivity.
 Qed.
 
+(* responses (client side) *)
+Theorem c07_roundtrip_resp_partial r p rest :
+  wf_resp r -> boundaryc true p ->
+  exists p', boundaryc true p' /\ run_bytes p (render_resp r ++ rest) [] = run_bytes p' rest (meaning_resp r).
+Proof. exact (c07_roundtrip_resp r p rest). Qed.
+
+Lemma c07_resp_acc r p rest acc :
+  wf_resp r -> boundaryc true p ->
+  exists p', boundaryc true p' /\ run_bytes p (render_resp r ++ rest) acc = run_bytes p' rest (acc ++ meaning_resp r).
+Proof.
+  intros Hr Hb. destruct (c07_roundtrip_resp r p rest Hr Hb) as (p1 & Hb1 & E1).
+  exists p1. split; auto.
+  rewrite run_bytes_acc, E1, (run_bytes_acc rest p1 (meaning_resp r)), (run_bytes_acc rest p1 (acc ++ meaning_resp r)).
+  destruct (run_bytes p1 rest []) as [[q ev] e]. cbv beta iota. now rewrite app_assoc.
+Qed.
+
+Theorem c07_pipelined_resp_partial rs : forall p rest acc,
+  Forall wf_resp rs -> boundaryc true p ->
+  exists p', boundaryc true p' /\
+    run_bytes p (concat (map render_resp rs) ++ rest) acc = run_bytes p' rest (acc ++ concat (map meaning_resp rs)).
+Proof.
+  induction rs as [|r rs IH]; intros p rest acc Hw Hb; cbn [map concat].
+  - exists p. split; auto. now rewrite app_nil_r.
+  - inversion Hw as [|? ? Hr Hrs]; subst.
+    destruct (c07_resp_acc r p (concat (map render_resp rs) ++ rest) acc Hr Hb) as (p1 & Hb1 & E1).
+    destruct (IH p1 rest (acc ++ meaning_resp r) Hrs Hb1) as (p2 & Hb2 & E2).
+    exists p2. split; auto. rewrite <- app_assoc, E1, E2. now rewrite app_assoc.
+Qed.
+
+(* non-vacuity: "HTTP/1.1 404 Not Found\r\nContent-Length: 2\r\n\r\nno" from the client's initial state *)
+Example c07_example_resp :
+  let r := {| sproto := [72;84;84;80;47;49;46;49]; scode := 404; sword := [78;111;116]; stail := [32;70;111;117;110;100];
+              shdrs := []; sbody := FLen [110;111] |} in
+  wf_resp r /\ boundaryc true (init true) /\
+  snd (fst (run_bytes (init true) (render_resp r) [])) = meaning_resp r /\
+  In (EStatus 404 [78;111;116]) (meaning_resp r).
+Proof.
+  split; [|split; [unfold boundaryc, init; cbn; repeat split|split; [vm_compute; reflexivity|vm_compute; tauto]]].
+  unfold wf_resp; cbn. repeat split.
+  - exists [84;84;80;47;49;46;49]. split; [reflexivity|]. unfold SP. repeat (constructor; [lia|]). constructor.
+  - exists 78, [111;116]. split; [reflexivity|]. split; [reflexivity|]. unfold SP, CR. repeat (constructor; [lia|]). constructor.
+  - right. exists [70;111;117;110;100]. split; [reflexivity|]. unfold CR. repeat (constructor; [lia|]). constructor.
+  - constructor.
+Qed.
+
 Print Assumptions c07_roundtrip_nobody_partial.
 Print Assumptions c07_pipelined_nobody_partial.
 Print Assumptions c07_roundtrip_msg_partial.
 Print Assumptions c07_pipelined_msg_partial.
 Print Assumptions c07_decimal_roundtrip.
 Print Assumptions c07_hex_roundtrip.
+Print Assumptions c07_roundtrip_resp_partial.
+Print Assumptions c07_pipelined_resp_partial.
